@@ -449,6 +449,7 @@ def check(chk):
     chk.ob("DOM-29", "a handler that finds a short frame can force a resync", ok, g_.where(), construct=g_.ident, text="lost_synch()")
 
     _opp_poll(chk, repo)
+    _snapshot_applied(chk, repo)
 
     # ------------------------------------------------------------ SYNC-1
     DEFER = {"call_soon", "call_later", "call_at", "create_task", "ensure_future", "schedule_once", "run_in_executor"}
@@ -564,6 +565,41 @@ def _opp_poll(chk, repo):
     g = [m for m in repo.cls(OPPF, "OppHardwarePlatform").methods.values() if any(
         isinstance(c.func, ast.Attribute) and c.func.attr == "set" and "_poll_response_received" in src(c.func.value) for c in m.calls())]
     chk.ob("POLL-14", "the read-input answer handler raises the answer flag", len(g) >= 1, f.where(), detail=str([m.name for m in g]), construct=f.ident, text="poll flag set")
+
+
+def _snapshot_applied(chk, repo):
+    """SNAP-14: a full switch report (FAST `SA:`) is applied switch by switch: every switch of the platform (no further filter) has its raw
+    level taken from the report under its own number; the *logical* state (raw xor invert) is what is compared with the switch's state and
+    what is handed to process_switch_obj, flagged as logical - so that after the report MPF's states equal the report's, NC switches
+    included."""
+    from sa.cfg import canon_set, canon_fact
+    from sa.helpers import inloop_guards, positive
+    f = repo.func(NN, "FastNetNeuronCommunicator.update_switches_from_hw_data")
+    chk.analysed(f)
+    cfg = f.cfg()
+    lps = [h for h in cfg.nodes if h.kind == "loop"]
+    ps = [(n, c) for n, c in cfg.calls_named("process_switch_obj")]
+    chk.need(len(lps) == 1 and len(ps) == 1, "SNAP-14", "update_switches_from_hw_data walks the switches and reports changes", f)
+    n, c = ps[0]
+    lg = [x for x in walk_local(f.node) if isinstance(x, ast.Assign) and isinstance(x.targets[0], ast.Name) and isinstance(x.value, ast.BinOp) and
+          isinstance(x.value.op, ast.BitXor) and {src(x.value.left), src(x.value.right)} == {"switch.invert", "hw_state"}]
+    raw = [x for x in walk_local(f.node) if isinstance(x, ast.Assign) and src(x.targets[0]) == "hw_state"]
+    ok = len(lg) == 1 and len(raw) == 1 and src(raw[0].value).replace(" ", "") == "self.platform.hw_switch_data[switch.hw_switch.number]"
+    chk.ob("SNAP-14", "the raw level is the report's entry for the switch's own number; the logical state is raw xor invert", ok, f.where(), construct=f.ident,
+           text="snapshot raw / logical")
+    lname = src(lg[0].targets[0]) if lg else "?"
+    args = [src(a) for a in c.args] + ["%s=%s" % (k.arg, src(k.value)) for k in c.keywords]
+    ok = args in ([ "switch", lname, "True"], ["switch", lname, "logical=True"])
+    chk.ob("SNAP-14", "a change is reported with the logical state, flagged as logical", ok, f.where(c), detail=str(args), construct=f.ident, text="snapshot report args")
+    got = positive(inloop_guards(cfg, n.id, lps[0].id))
+    want = positive({canon_fact("%s != switch.state" % lname, True)})
+    extra = {g for g in got - want if "hw_state" not in g[0]}
+    chk.ob("SNAP-14", "a switch is reported exactly when its logical state differs from MPF's", want <= got and not extra, f.where(c), detail="selected by %s" % sorted(got),
+           construct=f.ident, text="snapshot report selection")
+    it = src(lps[0].ast.iter).replace(" ", "")
+    chk.ob("SNAP-14", "every switch of this platform is looked at", it in ("[swforswinself.machine.switches.values()ifsw.platform==self.platform]",
+                                                                         "[swforswinself.machine.switches.values()ifself.platform==sw.platform]"),
+           f.where(lps[0].ast), detail=it, construct=f.ident, text="snapshot switch set")
 
 
 def _flatten_or(e):
@@ -737,6 +773,7 @@ def battery():
         M("OPP poll loop sends nothing after a timed-out wait", OP, "                self.log.warning(\"Poll took more than %sms for %s\", timeout * 1000, chain_serial)\n            else:\n                self._poll_response_received[chain_serial].clear()", "                self.log.warning(\"Poll took more than %sms for %s\", timeout * 1000, chain_serial)\n                continue\n\n            self._poll_response_received[chain_serial].clear()", "POLL-14"),
         M("OPP poll flag cleared although no answer came", OP, "                self.log.warning(\"Poll took more than %sms for %s\", timeout * 1000, chain_serial)\n            else:\n                self._poll_response_received[chain_serial].clear()", "                self.log.warning(\"Poll took more than %sms for %s\", timeout * 1000, chain_serial)\n                self._poll_response_received[chain_serial].clear()", "POLL-14"),
         M("PKONE decoder stops at an ignored frame", PK, "            if msg.decode() not in self.ignored_messages:\n                self.platform.process_received_message(msg.decode())", "            if msg.decode() in self.ignored_messages:\n                return\n\n            self.platform.process_received_message(msg.decode())", "PAIR-15"),
+        M("snapshot reports the raw level as the logical state", NN, "process_switch_obj(switch, logical_state, True)", "process_switch_obj(switch, hw_state, True)", "SNAP-14"),
     ]
 
 
